@@ -270,6 +270,29 @@ def run(ctx):
             impl.append(_impl_linecol(pp, s, loc))
     diffs = ctx.correspond("linecol", cases, lines, impl, nontrivial=lambda c, o: "\n" in c[1] or "\t" in c[1],
                           outcome_of=lambda c, o: f"len{min(len(c[1]), 8)}{'+nl' if chr(10) in c[1] else ''}")
+    # ---- the answers do not depend on the order of the questions (lineno/col/line are functions of (loc, string)):
+    #      fresh strings (nothing cached yet), locations asked descending / shuffled, interleaved with another string
+    rng_o = ctx.subrng("linecol-order")
+    n_ord, bad_ord = 0, None
+    for k in range(ctx.budget(150, 1500)):
+        body = "".join(rng_o.choice(["a", "b", "\n", "\n", " ", "\t", "x"]) for _ in range(rng_o.randint(4, 30)))
+        s1 = f"{body}#{ctx.seed}-{k}"          # unique text: no cache entry exists for it
+        s2 = f"{k}-{ctx.seed}\n{body}"
+        locs = list(range(len(s1) + 1))
+        order = locs[::-1] if k % 2 == 0 else rng_o.sample(locs, len(locs))
+        for j, loc in enumerate(order):
+            if j % 3 == 1:
+                pp.lineno(min(loc, len(s2)), s2)
+            n_ord += 1
+            got = (pp.lineno(loc, s1), pp.col(loc, s1), pp.line(loc, s1))
+            b = s1.rfind("\n", 0, loc) + 1
+            want = (s1.count("\n", 0, loc) + 1, loc - b + 1, s1[b:].split("\n", 1)[0])
+            if got != want and bad_ord is None:
+                bad_ord = ({"string": s1, "order": order[: j + 1]}, want, got)
+    ctx.count_cases("oracle:linecol-any-order", n_ord, outcomes={"queries": n_ord})
+    if bad_ord:
+        ctx.fail_input("lineno/col/line depend on the order of the queries", {"order_case": True, **bad_ord[0]}, bad_ord[1], bad_ord[2],
+                       theorem="C14_linecol_consistent (functions of (loc, string))")
     # ---- correspondence: expandtabs ----------------------------------------------------------
     cases2 = [[s] for s in strings]
     lines2 = [sx(Sym("expandtabs"), s) for s in strings]
@@ -325,6 +348,14 @@ def run(ctx):
 
 
 def replay(data):
+    if data.get("replay_kind") == "failing-input" and data["case"].get("order_case"):
+        pp = common.import_pyparsing()
+        s1 = data["case"]["string"]
+        for loc in data["case"]["order"]:
+            b = s1.rfind("\n", 0, loc) + 1
+            if (pp.lineno(loc, s1), pp.col(loc, s1)) != (s1.count("\n", 0, loc) + 1, loc - b + 1):
+                return True
+        return False
     pp = common.import_pyparsing()
     case = data.get("case", {})
     if "loc" in case:
